@@ -2,6 +2,7 @@ import RedisVerif.Driver.Codec
 import RedisVerif.Model.Stream
 import RedisVerif.Model.StreamActor
 import RedisVerif.Model.StreamNode
+import RedisVerif.Driver.ManifestJson
 
 /-
   C12 / C13 sub-driver (stateful): one process (`StreamingPersistence` + `Compactor`) on an
@@ -401,6 +402,9 @@ def stepX (s : St) (line : String) : Option (St × String) :=
   | _ => none
 
 def step (s : St) (line : String) : St × String :=
+  match MJ.step line with
+  | some o => (s, o)
+  | none =>
   match stepX s line with
   | some r => r
   | none =>
